@@ -100,5 +100,8 @@ def names_for(pats):
 
 # unrestricted regexes (compared through `re`: only list/ordering semantics are under test)
 FREE_POOL = [r'(?:^|\.)([^.]+)\.\1(?:\.|$)', r'(\d)\1', r'^(a|x)?(?(1)\.|b)', r'(?P<w>web|db)\.(?P=w)', r'^carbon\.', r'cpu$', r'\d+', r'(web|db)\.', r'[aeiou]{2}', r'^[^.]+$', r'\.\.', r'^\.', r'\.$',
-             r'(?i)CPU', r'a.c', r'^servers\.[^.]*\.load$', r'x?y+', r'\bprod\b', r'^$', r'.']
+             r'(?i)CPU', r'a.c', r'^servers\.[^.]*\.load$', r'x?y+', r'\bprod\b', r'^$', r'.',
+             # rule texts whose ends look like a redundant '.*' but are not
+             r'^carbon\.*', r'db\.\.*', r'.*?\.prod\.', r'.*+\.count$', r'^web.*?', r'(?:a|b).*', r'.*', r'^.*$', r'cpu.*\Z',
+             r'\..*\.', r'[.]*$', r'.{3}']
 INVALID_POOL = ['(', '[a', '*a', 'a**', '(?P<x', '\\', '(?z)', 'a{2,1}', '[z-a]', ')']
